@@ -286,6 +286,9 @@ Section Spec.
       Forall2 (fun kv km => fst kv = fst km /\ wire_value it (snd kv) (snd km)) es ms ->
       wire_value (FMap it) (VMap es) (JObj ms)
   | W_any pb m j :
+      (* the value of a j5 Any that stores JSON text is that text's JSON value (for a payload stored as
+         proto bytes it is whatever the inner encoding yields: outside this specification) *)
+      (forall s, pb = false -> msg_get 3 m = Some (VBytes s) -> strict_parse s = Some j) ->
       wire_value (FAny pb) (VMsg m) (JObj [(txt_type, JStr (any_type_name pb m)); (txt_value, j)])
   (* members: exactly the present properties, under their JSON names, unset ones omitted,
      flattened ones inlined (their path leads into the sub-message) *)
